@@ -18,6 +18,7 @@ const (
 	BConstA  = "consta"  // Constant node with value_floats / value_ints (attribute-backed storage)
 	BPred    = "pred"    // output of a predecessor node (Reshape of a caller input)
 	BPredCat = "predcat" // output of a one-input Concat (which returns its input object itself)
+	BUndecl  = "undecl"  // supplied by the caller under a name the graph does not list in graph.input at all
 )
 
 // Entry is one model with several valid input sets.
@@ -46,7 +47,7 @@ func modes(o Operand) []string {
 	if o.V == nil {
 		return nil
 	}
-	ms := []string{BIn, BInitRaw, BInitTyp, BInitIn, BConst, BPred, BPredCat}
+	ms := []string{BIn, BInitRaw, BInitTyp, BInitIn, BConst, BPred, BPredCat, BUndecl}
 	if len(o.V.Shape) == 1 && (o.V.DT == val.Float32 || o.V.DT == val.Int64) {
 		ms = append(ms, BConstA)
 	}
@@ -88,6 +89,11 @@ func Bind(name string, cases []OpCase, binds []string, sensitive bool) *Entry {
 		switch mode {
 		case BIn:
 			m.Inputs = append(m.Inputs, mb.IO{Name: nm, DT: o.V.DT, Shape: dyn(o.V.Shape, o.BatchAxis), NoShape: len(o.V.Shape) == 0})
+			slots = append(slots, inSlot{i, nm})
+			node.In = append(node.In, nm)
+		case BUndecl:
+			// Run copies every entry of the caller's map into its environment, so a node may read a name that is
+			// neither a declared input, nor an initializer, nor a node output - if the caller passes it
 			slots = append(slots, inSlot{i, nm})
 			node.In = append(node.In, nm)
 		case BInitRaw, BInitTyp:
@@ -137,6 +143,9 @@ func Bind(name string, cases []OpCase, binds []string, sensitive bool) *Entry {
 	node.Out = append([]string{}, c0.Outs...)
 	m.Nodes = append(m.Nodes, node)
 	for _, o := range c0.Outs {
+		if o == "" {
+			continue // an output that is not requested
+		}
 		m.Outputs = append(m.Outputs, mb.IO{Name: o, NoShape: true})
 	}
 	for _, c := range cases {
@@ -190,7 +199,7 @@ func DrawSingle(r *rng.R, ts []Template, tplIdx int, bindIdx int) *Entry {
 		}
 	}
 	for i, o := range probe.Operands {
-		if o.V != nil && o.BatchAxis >= 0 && binds[i] != "" && binds[i] != BIn && binds[i] != BPred && binds[i] != BPredCat {
+		if o.V != nil && o.BatchAxis >= 0 && binds[i] != "" && binds[i] != BIn && binds[i] != BPred && binds[i] != BPredCat && binds[i] != BUndecl {
 			frozenBatch = true
 		}
 	}
